@@ -254,7 +254,9 @@ Definition STRING_DT : Z := DataType_STRING.
 Inductive ITensorV : Type :=
 | IProto (p : TensorP) (meta : dict)       (* TensorProtoTensor: keeps the proto; metadata read at construction *)
 | IExt (location : str) (offset length : option Z) (dtype : Z) (name : option str) (dims : list Z)
-       (doc : option str) (meta : dict)    (* ExternalTensor *)
+       (doc : option str) (meta : dict)
+       (extra : dict)                      (* ExternalTensor; meta["external_data_extra_entries"]: the
+                                              external_data entries other than location/offset/length, in order *)
 | IStr (data : list (list N)) (dims : list Z) (name : option str) (doc : option str) (meta : dict). (* StringTensor *)
 
 Definition k_location : str := [108;111;99;97;116;105;111;110]%N.
@@ -262,6 +264,8 @@ Definition k_offset : str := [111;102;102;115;101;116]%N.
 Definition k_length : str := [108;101;110;103;116;104]%N.
 Definition k_checksum : str := [99;104;101;99;107;115;117;109]%N.
 Definition k_basepath : str := [98;97;115;101;112;97;116;104]%N.
+Definition ext_interpreted (k : str) : bool :=      (* serde._INTERPRETED_EXTERNAL_DATA_KEYS *)
+  str_eqb k k_location || str_eqb k k_offset || str_eqb k k_length.
 Definition ext_allowed (k : str) : bool :=
   str_eqb k k_location || str_eqb k k_offset || str_eqb k k_length || str_eqb k k_checksum || str_eqb k k_basepath.
 
@@ -281,7 +285,8 @@ Definition deser_tensor (t : TensorP) : res ITensorV :=
     len <- ext_int (lookup k_length info) ;;
     if valid_dtype (dflt 0 (t_dtype t)) then
       Ok (IExt (dflt [] (lookup k_location info)) off len (dflt 0 (t_dtype t)) (t_name t) (t_dims t)
-               (t_doc t) (dict_of (t_meta t)))
+               (t_doc t) (dict_of (t_meta t))
+               (filter (fun kv => negb (ext_interpreted (fst kv))) (t_ext t)))
     else Raise ValueError
   else if dflt 0 (t_dtype t) =? STRING_DT then
     Ok (IStr (t_strs t) (t_dims t) (t_name t) (t_doc t) (dict_of (t_meta t)))
@@ -290,20 +295,20 @@ Definition deser_tensor (t : TensorP) : res ITensorV :=
 Definition itensor_dtype (t : ITensorV) : Z :=
   match t with
   | IProto p _ => dflt 0 (t_dtype p)
-  | IExt _ _ _ dt _ _ _ _ => dt
+  | IExt _ _ _ dt _ _ _ _ _ => dt
   | IStr _ _ _ _ _ => STRING_DT
   end.
 Definition itensor_dims (t : ITensorV) : list Z :=
-  match t with IProto p _ => t_dims p | IExt _ _ _ _ _ d _ _ => d | IStr _ d _ _ _ => d end.
+  match t with IProto p _ => t_dims p | IExt _ _ _ _ _ d _ _ _ => d | IStr _ d _ _ _ => d end.
 Definition itensor_name (t : ITensorV) : option str :=
-  match t with IProto p _ => t_name p | IExt _ _ _ _ n _ _ _ => n | IStr _ _ n _ _ => n end.
+  match t with IProto p _ => t_name p | IExt _ _ _ _ n _ _ _ _ => n | IStr _ _ n _ _ => n end.
 
 (* `value.const_value.name = value.name` (TensorProtoTensor.name setter writes into the kept proto) *)
 Definition itensor_set_name (t : ITensorV) (n : str) : ITensorV :=
   match t with
   | IProto p m => IProto (mkTensorP (t_dims p) (t_dtype p) (Some n) (t_doc p) (t_loc p) (t_raw p) (t_strs p)
                                     (t_other p) (t_ext p) (t_meta p)) m
-  | IExt l o len dt _ d doc m => IExt l o len dt (Some n) d doc m
+  | IExt l o len dt _ d doc m ex => IExt l o len dt (Some n) d doc m ex
   | IStr data d _ doc m => IStr data d (Some n) doc m
   end.
 
@@ -316,9 +321,9 @@ Definition ser_tensor (t : ITensorV) : TensorP :=
   | IProto p m =>
       mkTensorP (t_dims p) (t_dtype p) (t_name p) (t_doc p) (t_loc p) (t_raw p) (t_strs p) (t_other p)
                 (t_ext p) (ksort m)
-  | IExt l off len dt n d doc m =>
+  | IExt l off len dt n d doc m ex =>
       mkTensorP d (Some dt) (truthy n) (truthy doc) (Some 1) None [] []
-                ((k_location, l) :: opt_entry k_offset off ++ opt_entry k_length len) (ksort m)
+                ((k_location, l) :: opt_entry k_offset off ++ opt_entry k_length len ++ ex) (ksort m)
   | IStr data d n doc m =>
       mkTensorP d (Some STRING_DT) (truthy n) (truthy doc) None None data [] [] (ksort m)
   end.
